@@ -2,6 +2,18 @@
 
 package ed25519
 
-import "github.com/oasisprotocol/ed25519/internal/modm"
+import (
+	"github.com/oasisprotocol/ed25519/internal/ge25519"
+	"github.com/oasisprotocol/ed25519/internal/modm"
+)
 
 func vFreshLimb(name string) modm.Element { return modm.Element(vU64(name)) }
+
+// every limb of the point becomes a fresh unconstrained value
+func vClobberPoint(p *ge25519.Ge25519, name string) {
+	for i := range p.X() {
+		p.X()[i] = vU64(name + "x" + vItoa(i))
+		p.Y()[i] = vU64(name + "y" + vItoa(i))
+		p.Z()[i] = vU64(name + "z" + vItoa(i))
+	}
+}
